@@ -149,9 +149,9 @@ PROPS["C14"] = {
 }
 PROPS["C20"] = {
     "level": "proof", "theorems": _GEN["C20"], "theorem_kinds": {},
-    "rule": "the histories of C14 with quotations of random ranges (inclusive / exclusive / unbounded ends, single element, empty) of the root array or text stored in the root map; every replica that has the quotation dereferences it after every step (unquote / get_string) and the result is compared with the live units between the boundary units in that replica's hook dump; deleting the quotation must leave the source untouched; an observer is registered on every quotation on every replica as soon as it exists there, and every step (local transaction or delivery) after which the quotation shows other ids than before must have called it",
-    "trusted_base": [_MODEL_NOTE, "link bookkeeping (ITEM_FLAG_LINKED, linked_by, inheritance on split) is not modelled: the model dereferences by position"],
-    "modelled_not_verified": ["LinkSource::materialize / join_linked_range / unlink", "observer notification of quotations (decided on the implementation only)"], "assumptions": [],
+    "rule": "the histories of C14 with quotations of random ranges (inclusive / exclusive / unbounded ends, single element, empty) of the root array or text stored in the root map; every replica that has the quotation dereferences it after every step (unquote / get_string) and the result is compared with the live units between the boundary units in that replica's hook dump; deleting the quotation must leave the source untouched; an observer is registered on every quotation on every replica as soon as it exists there; after every step the units registered for the quotation in the implementation (Store::linked_by, hook dump) are compared with what the Coq model of registration (Crdt/Links.v) computes from the state before the step, and a step after which the quotation shows other ids must have called the observer unless the model says that no changed unit can be registered (known finding)",
+    "trusted_base": [_MODEL_NOTE, "registration of units for a quotation is modelled per sequence and quotation (Crdt/Links.v: materialize, the neighbour rule of join_linked_range, unregistration on delete); inheritance of links on block split and map-entry links are not"],
+    "modelled_not_verified": ["Item::inherit_links, Store::split_block link copy, TransactionMut::unlink", "observer dispatch of quotations beyond 'the registered set changed'"], "assumptions": [],
 }
 PROPS["C18"] = {
     "level": "proof", "theorems": _GEN["C18"], "theorem_kinds": {},
